@@ -112,9 +112,19 @@ class Universe:
             # inner asset of a structured asset whose own window is wider than the wrapper's
             'a3': A.SimpleContract(name='a3', nodes=n1, price='p', min_cap=0, max_cap=1, extra_costs=0.25, start=S0 - 1 * H, end=S0 + 9 * H),
         }
+        n2 = A.Node('n2')
+        take_arr = {'start': [S0 - 2 * H], 'end': [S0 + 12 * H], 'values': np.array([7.5])}
+        self.user_dicts['a4.max_take'] = take_arr
+        self.pristine = copy.deepcopy(self.user_dicts)
+        self.assets['a2'].wacc = 0.5      # another discount rate than its neighbours on the shared grid
+        self.extra = [A.OrderBook('ob', n1, orders={'start': [pd.Timestamp(S0 + 0 * H), pd.Timestamp(S0 + 4 * H), pd.Timestamp(S0 + 7 * H)],
+                                                    'end': [pd.Timestamp(S0 + 3 * H), pd.Timestamp(S0 + 8 * H), pd.Timestamp(S0 + 11 * H)],
+                                                    'capa': [1., -1., 2.], 'price': [2., 6., 1.]}),
+                      A.ExtendedTransport('a4', [n1, n2], min_cap=0., max_cap=2., efficiency=0.5, costs_const=0.1, max_take=take_arr),
+                      A.SimpleContract(name='a5', nodes=n2, price='q', min_cap=-3, max_cap=0, extra_costs=0.1)]
         self.wrapper = eao.portfolio.StructuredAsset(name='sa', nodes=[n1], portfolio=eao.portfolio.Portfolio([self.assets['a3']]),
                                                      start=S0 + 2 * H, end=S0 + 6 * H)
-        self.portfolio = eao.portfolio.Portfolio([self.assets['a0'], self.assets['a1'], self.assets['a2'], self.wrapper])
+        self.portfolio = eao.portfolio.Portfolio([self.assets['a0'], self.assets['a1'], self.assets['a2']] + self.extra + [self.wrapper])
         self.last = None          # (op, prices key, grid key, kind)
 
     def dicts_changed(self):
